@@ -288,6 +288,7 @@ def run(ctx: Ctx):
     _pad_arithmetic(ctx, pv, gpb)
     _mask_broadcast_before_counting(ctx)
     _pad_and_chunk_value_tables(ctx)
+    _scatter_buffers_take_the_input_dtype(ctx)
     # ---- S7 handler / raiser agreement around the validation helpers -----------------------------------------------
     from rules.excmatch import ArgcheckRaises, mismatched_handlers
     acr = ArgcheckRaises(pkg)
@@ -705,6 +706,58 @@ def _pad_arithmetic(ctx: Ctx, pv, gpb):
             compare(f"_get_padding_buffers::{mode}-{side}-count", mterm, want_mask[slot][0], want_mask[slot][1], v.lineno, g())
     col.count("pad_arith_terms", nchecked)
     col.floor("pad_arith_terms", nchecked, 12)
+
+
+def _scatter_buffers_take_the_input_dtype(ctx: Ctx):
+    """S10: the buffer the selected / padded elements are scattered into has the element type of the input (`full_like(x, ..)`,
+    `x.new_full(..)`, `torch.full(.., dtype=x.dtype)`): allocated with the default type (float32) the scatter raises for every other input -
+    integer token ids, double or half features - although 'any element type' is part of every batch the property quantifies over."""
+    from sa.defuse import ReachingDefs
+    col, pkg = ctx.col, ctx.pkg
+    n_sites = 0
+    for fname in ("pad_masked_sequence", "pad_variable", "chunk_by_slices"):
+        f = pkg.func(f"{MOD}::{fname}")
+        rel = f.module.relname
+        rd = ReachingDefs(f.node)
+        helpers = {st.name: st for st in pkg.module(MOD).tree.body if isinstance(st, ast.FunctionDef) and st.name.startswith("_")}
+        bodies = [(f.node, rd)] + [(h_, ReachingDefs(h_)) for c_ in own_calls(f.node) for h_ in [helpers.get(call_name(c_))] if h_ is not None]
+        for node_, rd_ in bodies:
+            for c in ast.walk(node_):
+                if not (isinstance(c, ast.Call) and isinstance(c.func, ast.Attribute) and c.func.attr in ("masked_scatter", "masked_scatter_")):
+                    continue
+                recv = c.func.value
+                makers = []
+                seen, todo = set(), [recv]
+                while todo and len(seen) < 20:
+                    e_ = todo.pop()
+                    if isinstance(e_, ast.Name):
+                        for d_ in rd_.defs_of(e_):
+                            if d_.value is not None and id(d_.value) not in seen:
+                                seen.add(id(d_.value))
+                                todo.append(d_.value)
+                    elif isinstance(e_, ast.Call):
+                        cn = call_name(e_)
+                        if isinstance(e_.func, ast.Attribute) and e_.func.attr in ("masked_scatter", "masked_scatter_", "view", "contiguous", "transpose"):
+                            todo.append(e_.func.value)
+                        else:
+                            makers.append(e_)
+                if not makers:
+                    continue
+                n_sites += 1
+
+                def typed(m_):
+                    cn = call_name(m_)
+                    if cn.split(".")[-1].endswith("_like") and m_.args:
+                        return True
+                    if isinstance(m_.func, ast.Attribute) and m_.func.attr.startswith("new_"):
+                        return True
+                    return any(k_.arg == "dtype" and isinstance(k_.value, ast.Attribute) and k_.value.attr == "dtype" for k_ in m_.keywords) \
+                        or not cn.startswith("torch.")
+                untyped = [m_ for m_ in makers if not typed(m_)]
+                col.ob("G28", "S10", f"{rel}::{fname}::scatter-buffer-has-the-input-dtype@{u(recv)[:20]}", not untyped,
+                       (f"`{u(untyped[0])[:70]}` allocates the buffer that `{u(c)[:50]}` fills without the element type of the input: for any input that is "
+                        f"not float32 (token ids, double, half) the scatter raises") if untyped else "", rel, c.lineno, sample=[u(m_)[:40] for m_ in makers])
+    col.floor("scatter_buffer_sites", n_sites, 3)
 
 
 def _pad_masked_table(ctx: Ctx, f, rel: str) -> bool:
